@@ -403,6 +403,23 @@ def runSwap (ctx : Ctx) (op : Operation) : List Node → St → List Out
     | none => []
     | some (o, st') => o :: runSwap ctx op rest st'
 
+/-- drain the iterator while the **access-control state** is rewritten between `next` calls (the
+handler of a WriteRequest item that targets the ACL cluster runs between two calls of `next` and
+replaces the fabric's ACL): call `i` sees `ctxs[i]` — same requester and filter, another ACL -/
+def runCtx (op : Operation) (node : Node) : List Ctx → St → List Out
+  | [], _ => []
+  | ctx :: rest, st =>
+    match next ctx op node st with
+    | none => []
+    | some (o, st') => o :: runCtx op node rest st'
+
+/-- the `(endpoint, cluster, leaf)` of the last item among the answers given so far (`la` if there is
+none): what `last_authorized` holds -/
+def lastItemOf (la : Option (Nat × Nat × Nat)) : List Out → Option (Nat × Nat × Nat)
+  | [] => la
+  | .item ep cl lf _ _ :: rest => lastItemOf (some (ep, cl, lf)) rest
+  | .status _ _ :: rest => lastItemOf la rest
+
 /-- the swap run stopped because the expander was exhausted (not because the schedule ran out) -/
 def swapEnded (ctx : Ctx) (op : Operation) : List Node → St → Bool
   | [], _ => false
